@@ -127,7 +127,22 @@ func (m *machine) setSystem(rt *rapid.T) {
 	}
 	si := rapid.IntRange(0, len(m.sess)-1).Draw(rt, "session")
 	v := m.vars[rapid.IntRange(0, len(m.vars)-1).Draw(rt, "var")]
-	form := setForms[rapid.IntRange(0, len(setForms)-1).Draw(rt, "form")]
+	// scope first (3 in 4 a scope the variable has), then one of the spellings of that scope
+	wantGlobal := rapid.Bool().Draw(rt, "globalscope")
+	if rapid.IntRange(0, 3).Draw(rt, "scopefit") > 0 {
+		if !v.hasGlobal() {
+			wantGlobal = false
+		} else if !v.hasSession() {
+			wantGlobal = true
+		}
+	}
+	var forms []setForm
+	for _, f := range setForms {
+		if (f.scope != "session") == wantGlobal {
+			forms = append(forms, f)
+		}
+	}
+	form := forms[rapid.IntRange(0, len(forms)-1).Draw(rt, "form")]
 	cs := candidates(rt, v)
 	// DEFAULT, and copying the other scope's value
 	global := form.scope != "session"
@@ -549,6 +564,7 @@ func TestC44(t *testing.T) {
 			"setSystem2": m.setSystem,
 			"setSystem3": m.setSystem,
 			"setUser":    m.setUser,
+			"setUser2":   m.setUser,
 			"setBoth":    m.setBoth,
 			"newSession": m.openSession,
 			"show":       m.showVariables,
